@@ -53,6 +53,7 @@ const FAULTS: &[(&str, bool)] = &[
     ("kill-after-partial-output", true),
     ("exit1-after-partial-output", true),
     ("slow-ok", true),
+    ("slow-6s-ok", false),
     ("fail-once-partial-then-real", true),
     ("exit1-noisy-stderr-0", true),
     ("exit1-noisy-stderr-1", true),
@@ -257,6 +258,8 @@ fn stub_script(fault: &str, real: &str, cat: &str, head: &str, sleep: &str) -> O
         "kill-after-partial-output" => format!("{cat} >/dev/null\nprintf 'pub const SOURCE'\nkill -9 $$\n"),
         "exit1-after-partial-output" => format!("{cat} >/dev/null\nprintf 'pub const SOURCE'\nexit 1\n"),
         "slow-ok" => format!("{sleep} 2\nexec {real} \"$@\"\n"),
+        // only run on request (`--faults`): a formatter that needs longer than a generator-side time limit might allow
+        "slow-6s-ok" => format!("{sleep} 6\nexec {real} \"$@\"\n"),
         // the FIRST invocation by one generator process prints a prefix and dies, later ones work: a generator that retries must not
         // keep what the failed run printed (the unchanged code calls the formatter once and falls back)
         "fail-once-partial-then-real" => format!(
@@ -555,7 +558,8 @@ fn main() {
     let mut timeout = 20.0f64;
     let mut repeat = 1usize;
     let mut same_program = false;
-    let mut faults: Vec<String> = FAULTS.iter().map(|f| f.0.to_string()).collect();
+    // the default list leaves out the faults that are only run on request
+    let mut faults: Vec<String> = FAULTS.iter().map(|f| f.0.to_string()).filter(|f| f != "slow-6s-ok").collect();
     let mut i = 1;
     while i < args.len() {
         match args[i].as_str() {
@@ -732,6 +736,10 @@ fn main() {
                 let same = if oname == "ok" { compare(&s.3, &c) } else { "n/a" };
                 let mut items = vec![string(&s.0), atom(s.2), string(fault), c.outcome.clone(), atom(same)];
                 items.push(atom(format!("{:.3}", c.secs)));
+                if oname == "ok" {
+                    // fnv64 of the returned text (byte-level identity across faults that must not change the formatted text, C18)
+                    items.push(tagged("text-hash", vec![string(&c.err_msg)]));
+                }
                 if oname == "ok" && same == "false" {
                     items.push(tagged("returned-len", vec![nat(c.len as u64)]));
                 }
